@@ -171,6 +171,7 @@ func (fr *Frame) evalCall(st *State, call *ast.CallExpr, nWant int) []*Term {
 		// external without contract
 		e.assumed[key] = true
 		fr.checkCallPre(st, fn, recv, args, call)
+		fr.havocSliceArgs(st, call, sig, key)
 		return fr.freshResults(st, sig, "x$"+fn.Name())
 	}
 	// dynamic: interface method or function value
@@ -222,6 +223,64 @@ func (fr *Frame) evalCall(st *State, call *ast.CallExpr, nWant int) []*Term {
 	}
 	e.note("call through function value %s: results unconstrained, no heap effect assumed", exprString(call.Fun))
 	return fr.freshResults(st, sig, "fv")
+}
+
+// readOnlySliceFuncs: externals known not to write through their slice arguments.
+var readOnlySliceFuncs = map[string]bool{
+	"strings.Join": true, "bytes.Equal": true, "bytes.Compare": true, "encoding/hex.EncodeToString": true,
+	"encoding/json.Unmarshal": true, "os.WriteFile": true, "io/ioutil.WriteFile": true,
+	"os.File.Write": true, "os.File.WriteAt": true, "syscall.Write": true, "syscall.Pwrite": true,
+	"strings.Contains": true, "hash/crc32.ChecksumIEEE": true, "crypto/sha1.Sum": true,
+	"encoding/binary.littleEndian.Uint64": true, "encoding/binary.littleEndian.Uint32": true,
+}
+
+// havocSliceArgs: a callee without contract may write through any slice argument. The contents of every
+// slice-typed argument that names a location become unknown (length kept). The sort functions are known
+// (trusted, listed) to permute: every new element is some old element.
+func (fr *Frame) havocSliceArgs(st *State, call *ast.CallExpr, sig *types.Signature, key string) {
+	e := fr.e
+	if readOnlySliceFuncs[key] || strings.HasPrefix(key, "fmt.") || strings.HasPrefix(key, "strconv.") {
+		return
+	}
+	perm := key == "sort.SliceStable" || key == "sort.Slice" || key == "sort.Strings" || key == "sort.Sort" || key == "sort.Stable"
+	for _, a := range call.Args {
+		t := fr.info.TypeOf(a)
+		if t == nil {
+			continue
+		}
+		if _, ok := t.Underlying().(*types.Slice); !ok {
+			continue
+		}
+		base := ast.Unparen(a)
+		if sx, ok := base.(*ast.SliceExpr); ok {
+			base = ast.Unparen(sx.X)
+		}
+		switch base.(type) {
+		case *ast.Ident, *ast.SelectorExpr:
+		default:
+			continue
+		}
+		bt := fr.info.TypeOf(base)
+		if bt == nil {
+			continue
+		}
+		if _, ok := bt.Underlying().(*types.Slice); !ok {
+			continue
+		}
+		l := fr.evalLoc(st, base)
+		old := e.load(st, l)
+		na := Fresh("ext$"+exprString(base), old.S.Fields[0].S)
+		nv := Ctor(old.S, na, Acc(old, "len"))
+		if perm {
+			j := Var("j!p", IntSort)
+			m := Var("m!p", IntSort)
+			n := Acc(old, "len")
+			st.Assume(Forall([]*Term{j}, Implies(And(Le(IntLit(0), j), Lt(j, n)),
+				Exists([]*Term{m}, And(Le(IntLit(0), m), Lt(m, n), Eq(Select(na, j), Select(Acc(old, "arr"), m))))), []*Term{Select(na, j)}))
+		}
+		e.store(st, l, nv)
+		e.note("external %s without contract: contents of slice argument %s havocked%s", key, exprString(base), map[bool]string{true: " (permutation assumed)", false: ""}[perm])
+	}
 }
 
 func (fr *Frame) evalIgnore(st *State, x ast.Expr) {
